@@ -13,7 +13,7 @@ Extraction "model.ml"
   show_term term_key make_linked_list make_list_of_terms link_front count_terms get_terms
   unify evaluate_join eval_function replace_variables filter run_bip format_for_print_pred format_slist
   rename_term rename_terms rename_goal rename_rule add_rules get_rule make_query kb_get
-  world0 api_make_query api_parse_query api_parse_rule tinit tstep tobs make_base_node make_node next solve solve_all query_stopped count_rules format_solution
+  world0 api_make_query api_parse_query api_parse_rule goal_get_ground_term op_len op_get_subgoal tinit tstep tobs make_base_node make_node next solve solve_all query_stopped count_rules format_solution
   sem query_events answers_of output_of answers canswers
   strip_comments_at strip_comments check_last_char trim_error_line unmatched_bracket separate_rules read_facts_and_rules load_kb_from_file render legal wf_text expected
   tokenize token_tree generate_goal index_of_neck parse_rule show_goal show_rule show_infix
